@@ -47,6 +47,7 @@ type outNode struct {
 
 type tcase struct {
 	Perms   []string `json:"perms"`
+	Perms2  []string `json:"perms2"`
 	Proxy   []node   `json:"proxy"`
 	Backend []node   `json:"backend"`
 	Origin  string   `json:"origin"`
@@ -305,70 +306,20 @@ func TestMerge(t *testing.T) {
 		if err != nil {
 			t.Fatal(err)
 		}
-		pl.Client.Take()
-		root := &brigodier.RootCommandNode{}
-		for _, bn := range tc.Backend {
-			root.AddChild(buildNode(bn, nil, root, nil))
+		if tc.Perms2 == nil {
+			tc.Perms2 = []string{}
 		}
-		pl.FromBackend(&packet.AvailableCommands{RootNode: root})
-		// the packet is written after the (asynchronous) PlayerAvailableCommandsEvent
-		var raw []byte
-		deadline := time.Now().Add(5 * time.Second)
-		for time.Now().Before(deadline) {
-			raw = append(raw, pl.Client.Take()...)
-			if len(raw) > 0 {
-				rd := mcwire.NewRd(raw)
-				ln := rd.VarInt()
-				if rd.Err == nil && rd.Len() >= ln {
-					break
-				}
+		// the backend sends its tree, the player's permissions change, the backend sends it again
+		for step, perms := range [][]string{tc.Perms, tc.Perms2} {
+			for k := range held {
+				delete(held, k)
 			}
-			time.Sleep(50 * time.Microsecond)
-		}
-		st.Cases++
-		rec := tracefmt.Rec{"ev": "merge", "n": n, "proto": int(pv), "perms": tc.Perms, "proxy": tc.Proxy,
-			"backend": tc.Backend, "origin": tc.Origin}
-		rd := mcwire.NewRd(raw)
-		ln := rd.VarInt()
-		if rd.Err != nil || rd.Len() < ln || ln == 0 {
-			st.NoPacket++
-			rec["ev"] = "nopacket"
-			tw.Emit(rec)
-			_ = pl.Close()
-			continue
-		}
-		body := mcwire.NewRd(rd.N(ln))
-		pid := body.VarInt()
-		nodes, rootIdx, err := decodeCommands(body.Rest())
-		if err != nil {
-			rec["ev"] = "undecodable"
-			rec["err"] = err.Error()
-			tw.Emit(rec)
-			_ = pl.Close()
-			continue
-		}
-		restricted := 0
-		got := project(nodes, rootIdx, rootIdx, nil, nil, &restricted).Ch
-		st.Restricted += restricted
-		rec["pid"] = pid
-		rec["got"] = got
-		rec["extra"] = rd.Len() // bytes after the first frame
-		tw.Emit(rec)
-		if hasRd {
-			st.Redirects++
-		}
-		if filtered(tc.Proxy, held) {
-			st.Filtered++
-		}
-		for _, p := range tc.Proxy {
-			for _, bn := range tc.Backend {
-				if p.Name == bn.Name {
-					st.Replaced++
-				}
+			for _, p := range perms {
+				held["verif."+p] = true
 			}
-		}
-		if len(st.Samples) < 2 && hasRd {
-			st.Samples = append(st.Samples, map[string]any{"case": tc, "got": got})
+			if !feed(tw, st, pl, tc, perms, step+1, n, pv, hasRd, held) {
+				break
+			}
 		}
 		_ = pl.Close()
 	}
@@ -378,6 +329,75 @@ func TestMerge(t *testing.T) {
 	if err := tracefmt.WriteJSON("stats.json", st); err != nil {
 		t.Fatal(err)
 	}
+}
+
+// feed sends the backend tree through the handler once and records what the player received.
+func feed(tw *tracefmt.Writer, st *stats, pl *playfix.Play, tc tcase, perms []string, step, n int, pv proto.Protocol,
+	hasRd bool, held map[string]bool) bool {
+	pl.Client.Take()
+	root := &brigodier.RootCommandNode{}
+	for _, bn := range tc.Backend {
+		root.AddChild(buildNode(bn, nil, root, nil))
+	}
+	pl.FromBackend(&packet.AvailableCommands{RootNode: root})
+	// the packet is written after the (asynchronous) PlayerAvailableCommandsEvent
+	var raw []byte
+	deadline := time.Now().Add(5 * time.Second)
+	for time.Now().Before(deadline) {
+		raw = append(raw, pl.Client.Take()...)
+		if len(raw) > 0 {
+			rd := mcwire.NewRd(raw)
+			ln := rd.VarInt()
+			if rd.Err == nil && rd.Len() >= ln {
+				break
+			}
+		}
+		time.Sleep(50 * time.Microsecond)
+	}
+	st.Cases++
+	rec := tracefmt.Rec{"ev": "merge", "n": n, "proto": int(pv), "perms": perms, "step": step, "proxy": tc.Proxy,
+		"backend": tc.Backend, "origin": tc.Origin}
+	rd := mcwire.NewRd(raw)
+	ln := rd.VarInt()
+	if rd.Err != nil || rd.Len() < ln || ln == 0 {
+		st.NoPacket++
+		rec["ev"] = "nopacket"
+		tw.Emit(rec)
+		return false
+	}
+	body := mcwire.NewRd(rd.N(ln))
+	pid := body.VarInt()
+	nodes, rootIdx, err := decodeCommands(body.Rest())
+	if err != nil {
+		rec["ev"] = "undecodable"
+		rec["err"] = err.Error()
+		tw.Emit(rec)
+		return false
+	}
+	restricted := 0
+	got := project(nodes, rootIdx, rootIdx, nil, nil, &restricted).Ch
+	st.Restricted += restricted
+	rec["pid"] = pid
+	rec["got"] = got
+	rec["extra"] = rd.Len() // bytes after the first frame
+	tw.Emit(rec)
+	if hasRd {
+		st.Redirects++
+	}
+	if filtered(tc.Proxy, held) {
+		st.Filtered++
+	}
+	for _, p := range tc.Proxy {
+		for _, bn := range tc.Backend {
+			if p.Name == bn.Name {
+				st.Replaced++
+			}
+		}
+	}
+	if len(st.Samples) < 2 && hasRd {
+		st.Samples = append(st.Samples, map[string]any{"case": tc, "got": got})
+	}
+	return true
 }
 
 // filtered reports (for coverage statistics only) whether some node has a requirement the player fails.
